@@ -28,6 +28,14 @@ def main(argv):
     tag = getattr(mod, "TAG", "")
     ctx = core.Ctx(prop, tier, seed, tag)
     try:
+        import mk_fingerprints
+        ctx.escalate = mk_fingerprints.changed_anchor_files(os.environ.get("FUNC_ADL_REPO", "/repo"), prop)
+        if ctx.escalate and mode == "check":
+            ctx.notes.append("anchored source differs from the fingerprinted revision (%s): quick tier runs a 3x budget"
+                             % ", ".join(ctx.escalate))
+    except Exception:
+        ctx.escalate = []
+    try:
         b = core.build(mod.COQ_FILES, need_driver=getattr(mod, "NEED_DRIVER", True),
                        extract=getattr(mod, "EXTRACT", "FA/Extract/Extract.v"),
                        driver_src=getattr(mod, "DRIVER", "driver.ml"), tag=tag)
